@@ -307,6 +307,43 @@ def coap_event_loop(out):
 
 
 @extractor
+def ble_reassembly(out):
+    """C04 over BLE: the reply loop of _pairing_char_write - the order of the tests, what each branch does, the bound"""
+    t = parse("controller/ble/client.py")
+    f = func(t, "_pairing_char_write")
+    mx = [n.value.value for n in t.body if isinstance(n, ast.Assign) and getattr(n.targets[0], "id", "") == "MAX_REASSEMBLY" and isinstance(n.value, ast.Constant)]
+    loops = [n for n in f.body if isinstance(n, ast.For)]
+    if len(mx) != 1 or len(loops) != 1 or ast.unparse(loops[0].iter) != "range(MAX_REASSEMBLY)":
+        raise Shape("_pairing_char_write: loop / MAX_REASSEMBLY")
+    ifs = [n for n in loops[0].body if isinstance(n, ast.If)]
+    if len(ifs) != 2:
+        raise Shape("_pairing_char_write: two tests expected in the loop body")
+    first, second = ifs
+
+    def does(body):
+        acts = []
+        for st in body:
+            if isinstance(st, ast.Expr) and isinstance(st.value, ast.Call) and ast.unparse(st.value.func) == "buffer.extend":
+                acts.append("extend:" + ast.unparse(st.value.args[0]))
+            elif isinstance(st, ast.Return):
+                acts.append("return:" + ast.unparse(st.value))
+            elif isinstance(st, ast.Assign) and getattr(st.targets[0], "id", "") == "next_write":
+                acts.append("ack")
+            elif isinstance(st, ast.Expr) and isinstance(st.value, ast.Call) and "logger" in ast.unparse(st.value.func):
+                continue
+            else:
+                raise Shape("_pairing_char_write: statement " + ast.unparse(st)[:60])
+        return acts
+    after = [st for st in f.body[f.body.index(loops[0]) + 1:]]
+    if not (len(after) == 1 and isinstance(after[0], ast.Raise)):
+        raise Shape("_pairing_char_write: what follows the loop")
+    inits = [ast.unparse(n.value) for n in f.body if isinstance(n, ast.Assign) and getattr(n.targets[0], "id", "") == "buffer"]
+    out["BleReassembly"] = {"max": mx[0], "test1": ast.unparse(first.test), "do1": does(first.body), "else1": does(first.orelse),
+                            "test2": ast.unparse(second.test), "do2": does(second.body), "else2": does(second.orelse), "bufferInit": inits,
+                            "afterLoop": type(after[0].exc.func).__name__ and ast.unparse(after[0].exc.func)}
+
+
+@extractor
 def misc_numbers(out):
     """numeric literals and names at anchored AST shapes for C06 (CoAP resynchronisation window), C07 (framing header names),
     C14 (decimal context), C18 (state-number candidates), C19 (BLE advertisement layout)"""
@@ -1082,6 +1119,18 @@ def emit_coap_event(out, files):
         L.append(f"def {k}Src : String := {lean_str(d[k])}")
     L.append("end HapVerif.Gen.CoapEvent")
     files["CoapEvent.lean"] = "\n".join(L) + "\n"
+
+
+@emitter
+def emit_ble_reassembly(out, files):
+    d = out["BleReassembly"]
+    L = ["/-! GENERATED by tools/translate.py from controller/ble/client.py (_pairing_char_write) - do not edit. -/", "namespace HapVerif.Gen.BleReassembly",
+         f"def maxReassembly : Nat := {d['max']}",
+         f"def test1 : String := {lean_str(d['test1'])}", f"def do1 : List String := {lean_list(d['do1'], lean_str)}", f"def else1 : List String := {lean_list(d['else1'], lean_str)}",
+         f"def test2 : String := {lean_str(d['test2'])}", f"def do2 : List String := {lean_list(d['do2'], lean_str)}", f"def else2 : List String := {lean_list(d['else2'], lean_str)}",
+         f"def bufferInit : List String := {lean_list(d['bufferInit'], lean_str)}", f"def afterLoop : String := {lean_str(d['afterLoop'])}",
+         "end HapVerif.Gen.BleReassembly"]
+    files["BleReassembly.lean"] = "\n".join(L) + "\n"
 
 
 @emitter
